@@ -197,5 +197,39 @@ impl PaymentAmount {
 /// The "CLOSE" scalar constant, used in place of a `State`'s nonce in a [`CloseState`].
 pub const CLOSE_SCALAR: Scalar = Scalar::from_raw([0, 0, 0, u64::from_le_bytes(*b"\0\0\0CLOSE")]);
 
+/// Verification hooks (only with the `verif-hooks` feature): read-only access to the crate-private
+/// integer-to-scalar encodings and balance arithmetic used inside the proofs.
+#[cfg(feature = "verif-hooks")]
+pub mod verif_hooks {
+    use crate::{types::*, CustomerBalance, Error, MerchantBalance, PaymentAmount};
+
+    /// The scalar a payment amount is encoded as inside a pay proof.
+    pub fn amount_scalar(amount: PaymentAmount) -> Scalar {
+        amount.to_scalar()
+    }
+
+    /// The scalar a customer balance is encoded as inside a state.
+    pub fn customer_balance_scalar(balance: CustomerBalance) -> Scalar {
+        balance.to_scalar()
+    }
+
+    /// The scalar a merchant balance is encoded as inside a state.
+    pub fn merchant_balance_scalar(balance: MerchantBalance) -> Scalar {
+        balance.to_scalar()
+    }
+
+    /// Apply a payment amount to a pair of balances exactly as a state update does.
+    pub fn apply(
+        customer_balance: CustomerBalance,
+        merchant_balance: MerchantBalance,
+        amount: PaymentAmount,
+    ) -> (
+        Result<CustomerBalance, Error>,
+        Result<MerchantBalance, Error>,
+    ) {
+        crate::states::verif_apply(customer_balance, merchant_balance, amount)
+    }
+}
+
 #[cfg(test)]
 mod tests {}
